@@ -52,15 +52,6 @@ def run(ctx):
                        "shutdown" if not (ev.get("stopOK") and ev.get("reopenOK")) else "final-content-or-lost-reply")
             elif ev["ev"] == "Ret":
                 cls = "request-failed" if not ev.get("ok") else "stale-or-backward-read"
-                if cls == "request-failed" and ev.get("err") == "no root nodes":
-                    # known finding: a verification request that overlaps a refused edge write aimed at the root (an
-                    # edge that would put the root below one of its children) is answered "no root nodes"
-                    evs = [json.loads(x) for x in chunk[:at]]
-                    call = next((e for e in evs if e.get("ev") == "Call" and e.get("c") == ev.get("c") and e.get("op") == ev.get("op")), None)
-                    if call and call.get("kind") == "verify" and any(
-                            e.get("ev") == "Ret" and "own ancestor" in str(e.get("err")) and e.get("seq", 0) > call.get("seq", 0)
-                            for e in evs):
-                        cls = "verify-no-root-during-refused-root-edge"
             else:
                 cls = "lost-reply"
             extra_case = {}
